@@ -20,6 +20,7 @@ Proof. reflexivity. Qed.
 
 Section General.
 Variable mk : Z -> Z.
+Variables rnd lb : bool.
 
 Fixpoint tp_loop_days (fuel : nat) (r e : Z) : list Z :=
   match fuel with
@@ -27,13 +28,30 @@ Fixpoint tp_loop_days (fuel : nat) (r e : Z) : list Z :=
   | S f => if tp_midnight mk r <=? e then r :: tp_loop_days f (r + 1) e else []
   end.
 
-Lemma tp_day_loop_inside ranges e t : forall fuel r,
-  tp_inside_segs (tp_day_loop mk fuel ranges r e) t =
-  existsb (fun d => tp_inside_segs (tp_day_segs mk ranges d) t) (tp_loop_days fuel r e).
+(* the segments form [lb] drops end at or before the region's begin: no instant from begin on is affected *)
+Lemma tp_filter_keep_inside b l t : lb = false \/ b <= t ->
+  tp_inside_segs (filter (tp_keep lb b) l) t = tp_inside_segs l t.
 Proof.
-  induction fuel as [|f IH]; intros r; [reflexivity|].
+  intros H. induction l as [|[sb se] r IH]; [reflexivity|].
+  cbn [filter]. unfold tp_keep at 1. cbn [snd].
+  destruct lb.
+  - destruct H as [H|H]; [discriminate|].
+    destruct (b <? se) eqn:C.
+    + change (tp_inside_segs ((sb, se) :: ?x) t) with (tp_in_seg t (sb, se) || tp_inside_segs x t).
+      rewrite IH. reflexivity.
+    + rewrite IH. change (tp_inside_segs ((sb, se) :: r) t) with (tp_in_seg t (sb, se) || tp_inside_segs r t).
+      unfold tp_in_seg. cbn [fst snd]. assert ((t <? se) = false) as -> by lia. rewrite andb_false_r. reflexivity.
+  - change (tp_inside_segs ((sb, se) :: ?x) t) with (tp_in_seg t (sb, se) || tp_inside_segs x t).
+    rewrite IH. reflexivity.
+Qed.
+
+Lemma tp_day_loop_inside ranges b e t : lb = false \/ b <= t -> forall fuel r,
+  tp_inside_segs (tp_day_loop mk rnd lb fuel ranges b r e) t =
+  existsb (fun d => tp_inside_segs (tp_day_segs mk rnd ranges d) t) (tp_loop_days fuel r e).
+Proof.
+  intros H. induction fuel as [|f IH]; intros r; [reflexivity|].
   cbn [tp_day_loop tp_loop_days]. destruct (tp_midnight mk r <=? e); [|reflexivity].
-  rewrite tp_inside_app, IH. reflexivity.
+  rewrite tp_inside_app, IH, tp_filter_keep_inside by exact H. reflexivity.
 Qed.
 
 Lemma tp_flat_map_inside {A} (f : A -> list tp_seg) l t :
@@ -67,40 +85,64 @@ Proof.
 Qed.
 
 Lemma tp_day_segs_inside ranges d t :
-  tp_inside_segs (tp_day_segs mk ranges d) t =
-  existsb (fun kv => tp_in_day_def mk (fst kv) d && existsb (fun tr => tp_in_time_range_mk d tr t) (snd kv)) ranges.
+  tp_inside_segs (tp_day_segs mk rnd ranges d) t =
+  existsb (fun kv => tp_in_day_def mk rnd (fst kv) d && existsb (fun tr => tp_in_time_range_mk d tr t) (snd kv)) ranges.
 Proof.
   unfold tp_day_segs. rewrite tp_flat_map_inside. apply tp_existsb_ext. intros kv _.
-  destruct (tp_in_day_def mk (fst kv) d); [apply tp_time_ranges_segs_inside|reflexivity].
+  destruct (tp_in_day_def mk rnd (fst kv) d); [apply tp_time_ranges_segs_inside|reflexivity].
 Qed.
 
 Theorem tp_script_func_general (off : Z -> Z) ranges b e t :
-  tp_inside_segs (tp_script_func off mk ranges b e) t =
-  existsb (fun d => existsb (fun kv => tp_in_day_def mk (fst kv) d &&
+  lb = false \/ b <= t ->
+  tp_inside_segs (tp_script_func off mk rnd lb ranges b e) t =
+  existsb (fun d => existsb (fun kv => tp_in_day_def mk rnd (fst kv) d &&
                                        existsb (fun tr => tp_in_time_range_mk d tr t) (snd kv)) ranges)
-          (tp_loop_days (tp_loop_fuel b e) (tp_local_day off b) e).
+          (tp_loop_days (tp_loop_fuel b e) (tp_first_day off lb b) e).
 Proof.
-  unfold tp_script_func. rewrite tp_day_loop_inside.
+  intros H. unfold tp_script_func. rewrite tp_day_loop_inside by exact H.
   apply tp_existsb_ext. intros d _. apply tp_day_segs_inside.
 Qed.
 
 End General.
 
+(* every time range ends at most 48 h after 00:00 of its own day (24:00 ends and ranges wrapping past midnight do):
+   only the day of an instant and the day before can reach it *)
+Definition tp_ranges_reach1 (ranges : list (tp_dayrange * list (Z * Z))) : Prop :=
+  forall kv tr, In kv ranges -> In tr (snd kv) ->
+    (if snd tr <=? fst tr then snd tr + 86400 else snd tr) <= 172800.
+
+Lemma tp_reach1_no_earlier_day (o : Z -> Z) (m : Z -> Z) ranges d t :
+  tp_ranges_reach1 ranges -> d < tp_local_day o t - 1 -> tp_day_covers o m false ranges d t = false.
+Proof.
+  intros Hr Hd. unfold tp_day_covers.
+  destruct (existsb _ ranges) eqn:E; [|reflexivity]. exfalso.
+  apply existsb_exists in E. destruct E as (kv & Hkv & H).
+  apply andb_prop in H. destruct H as [_ H]. apply existsb_exists in H. destruct H as (tr & Htr & H).
+  pose proof (Hr kv tr Hkv Htr) as H1. destruct tr as [tb te]. cbn [fst snd] in *.
+  unfold tp_in_time_range in H. unfold tp_local_day in Hd.
+  destruct (te <=? tb) eqn:C; lia.
+Qed.
+
 (* ---------------- fixed UTC offset ---------------- *)
 
 Section Const.
 Variable c : Z.
+Variables rnd lb : bool.
 Let off := fun _ : Z => c.
 Let mk := fun l : Z => l - c.
 
-Lemma tp_in_day_def_const dd r : tp_in_day_def mk dd r = tp_day_matches dd r.
+(* both forms of the day number agree with the calendar distance when the offset does not change *)
+Lemma tp_in_day_def_const dd r : tp_in_day_def mk rnd dd r = tp_day_matches dd r.
 Proof.
   unfold tp_in_day_def, tp_day_matches, tp_midnight, mk.
   set (bd := tp_range_begin_day dd r). set (ed := tp_range_end_day dd r). set (s := tp_dr_stride dd).
   destruct ((r * 86400 - c <? bd * 86400 - c) || (ed * 86400 - c <=? r * 86400 - c)) eqn:C1.
   { destruct (bd <=? r) eqn:C2, (r <? ed) eqn:C3; cbn; try reflexivity; lia. }
-  replace (r * 86400 - c - (bd * 86400 - c)) with ((r - bd) * 86400) by ring.
-  rewrite Z.div_mul by lia.
+  assert ((if rnd then r * 86400 - c - (bd * 86400 - c) + 43200 else r * 86400 - c - (bd * 86400 - c)) / 86400 = r - bd) as ->.
+  { destruct rnd.
+    - replace (r * 86400 - c - (bd * 86400 - c) + 43200) with ((r - bd) * 86400 + 43200) by ring.
+      rewrite Z.div_add_l by lia. change (43200 / 86400) with 0. lia.
+    - replace (r * 86400 - c - (bd * 86400 - c)) with ((r - bd) * 86400) by ring. apply Z.div_mul. lia. }
   assert ((bd <=? r) = true) as -> by lia. assert ((r <? ed) = true) as -> by lia. cbn [andb].
   destruct (1 <? s) eqn:C4.
   - assert ((s <=? 1) = false) as -> by lia. cbn [andb orb].
@@ -115,7 +157,7 @@ Lemma tp_in_time_range_const r tr t : tp_in_time_range_mk mk r tr t = tp_in_time
 Proof. destruct tr as [tb te]. unfold tp_in_time_range_mk, tp_in_time_range, tp_local, mk, off. cbn [fst snd]. lia. Qed.
 
 Lemma tp_day_segs_const ranges d t :
-  tp_inside_segs (tp_day_segs mk ranges d) t = tp_day_covers off mk false ranges d t.
+  tp_inside_segs (tp_day_segs mk rnd ranges d) t = tp_day_covers off mk false ranges d t.
 Proof.
   rewrite tp_day_segs_inside. unfold tp_day_covers. apply tp_existsb_ext. intros kv _.
   rewrite tp_in_day_def_const. destruct (tp_day_matches (fst kv) d); [|reflexivity]. cbn [andb].
@@ -155,36 +197,49 @@ Qed.
 
 Theorem tp_script_func_const ranges b e t :
   b <= t < e -> tp_ranges_bounded ranges ->
-  tp_inside_segs (tp_script_func off mk ranges b e) t =
-  tp_spec_inside off mk false (Some (tp_local_day off b)) tp_back ranges t.
+  tp_inside_segs (tp_script_func off mk rnd lb ranges b e) t =
+  tp_spec_inside off mk false (Some (tp_first_day off lb b)) tp_back ranges t.
 Proof.
-  intros Ht Hb. unfold tp_script_func. rewrite tp_day_loop_inside.
+  intros Ht Hb. unfold tp_script_func. rewrite tp_day_loop_inside by (right; lia).
   rewrite (tp_existsb_ext _ (fun d => tp_day_covers off mk false ranges d t)) by (intros d _; apply tp_day_segs_const).
   unfold tp_spec_inside.
   set (d0 := tp_local_day off b). set (dt := tp_local_day off t).
   assert (d0 = (b + c) / 86400) as Hd0 by reflexivity.
   assert (dt = (t + c) / 86400) as Hdt by reflexivity.
+  assert (tp_first_day off lb b = if lb then d0 - 1 else d0) as Hf by reflexivity.
   apply Bool.eq_true_iff_eq. rewrite !existsb_exists. split.
   - intros (d & Hin & Hc). exists d. apply tp_loop_days_const in Hin.
     pose proof (tp_day_covers_reach ranges d t Hb Hc) as Hr. unfold tp_local, off in Hr.
     split; [apply tp_days_back_in; unfold tp_back; lia|].
-    rewrite Hc. assert ((d0 <=? d) = true) as -> by lia. reflexivity.
+    rewrite Hc. assert ((tp_first_day off lb b <=? d) = true) as -> by lia. reflexivity.
   - intros (d & Hin & Hc). apply andb_prop in Hc. destruct Hc as [Hd Hc]. exists d.
     apply tp_days_back_in in Hin.
     pose proof (tp_day_covers_reach ranges d t Hb Hc) as Hr. unfold tp_local, off in Hr.
     split; [|exact Hc]. apply tp_loop_days_const. unfold tp_loop_fuel.
-    rewrite Z2Nat.id by lia. lia.
+    rewrite Z2Nat.id by lia. destruct lb; lia.
 Qed.
 
 (* the statement of the property for a fixed offset; hypothesis = negated signature of F-C08-b *)
 Theorem tp_ranges_fixed_offset ranges b e t :
   b <= t < e -> tp_ranges_bounded ranges ->
-  (forall d, d < tp_local_day off b -> tp_day_covers off mk false ranges d t = false) ->
-  tp_inside_segs (tp_script_func off mk ranges b e) t = tp_spec_inside off mk false None tp_back ranges t.
+  (forall d, d < tp_first_day off lb b -> tp_day_covers off mk false ranges d t = false) ->
+  tp_inside_segs (tp_script_func off mk rnd lb ranges b e) t = tp_spec_inside off mk false None tp_back ranges t.
 Proof.
   intros Ht Hb Hno. rewrite tp_script_func_const by assumption. unfold tp_spec_inside.
-  apply tp_existsb_ext. intros d _. destruct (tp_local_day off b <=? d) eqn:C; [reflexivity|].
+  apply tp_existsb_ext. intros d _. destruct (tp_first_day off lb b <=? d) eqn:C; [reflexivity|].
   cbn [andb]. symmetry. apply Hno. lia.
+Qed.
+
+(* form lb = true (the loop starts the day before): nothing is left of finding wrap-first-day for such ranges *)
+Theorem tp_ranges_fixed_offset_lookback ranges b e t :
+  lb = true -> b <= t < e -> tp_ranges_bounded ranges -> tp_ranges_reach1 ranges ->
+  tp_inside_segs (tp_script_func off mk rnd lb ranges b e) t = tp_spec_inside off mk false None tp_back ranges t.
+Proof.
+  intros Hlb Ht Hb Hr. apply tp_ranges_fixed_offset; [assumption|assumption|].
+  intros d Hd. apply tp_reach1_no_earlier_day; [exact Hr|].
+  unfold tp_first_day in Hd. rewrite Hlb in Hd.
+  assert (tp_local_day off b <= tp_local_day off t); [|lia].
+  unfold tp_local_day, tp_local, off. apply Z.div_le_mono; lia.
 Qed.
 
 (* what tp_spec_inside says, in words: some day d among the day of t and the three before matches a day
@@ -216,7 +271,7 @@ Definition tp_berlin_tab : list (Z * Z) :=
   [(2014246800, 3600); (2026947600, 7200); (2045696400, 3600); (2058397200, 7200)].
 
 (* F-C08-b: "friday" = "22:00-06:00", window freshly computed from Saturday 2033-06-04 03:00 local:
-   03:00 on Saturday is inside by the statement, the produced segments do not contain it *)
+   03:00 on Saturday is inside by the statement, the segments the PINNED form produces do not contain it *)
 Theorem tp_wrap_refuted :
   let off := tp_tab_off tp_berlin_base tp_berlin_tab in
   let mk := tp_tab_mk tp_berlin_base tp_berlin_tab in
@@ -224,12 +279,25 @@ Theorem tp_wrap_refuted :
   let b := mk (tp_days_from_civil 2033 6 4 * 86400 + 10800) in
   tp_tab_ok tp_berlin_base tp_berlin_tab = true /\
   tp_spec_inside off mk false None tp_back ranges b = true /\
-  tp_inside_segs (tp_script_func off mk ranges b (b + 86400)) b = false /\
+  tp_inside_segs (tp_script_func off mk false false ranges b (b + 86400)) b = false /\
   tp_spec_inside off mk false (Some (tp_local_day off b)) tp_back ranges b = false.
 Proof. vm_compute. repeat split; reflexivity. Qed.
 
+(* ... and the same witness with the loop started one day earlier (form lb = true): the segment
+   [Friday 22:00, Saturday 06:00) is produced, Saturday 03:00 is inside, and Friday's other range 08:00-09:00, which
+   ended before the region's begin, is not reported *)
+Theorem tp_wrap_fixed :
+  let off := tp_tab_off tp_berlin_base tp_berlin_tab in
+  let mk := tp_tab_mk tp_berlin_base tp_berlin_tab in
+  let ranges := [({| tp_dr_first := TpWeekday 5 None None; tp_dr_last := None; tp_dr_stride := 1 |}, [(28800, 32400); (79200, 21600)])] in
+  let b := mk (tp_days_from_civil 2033 6 4 * 86400 + 10800) in
+  tp_spec_inside off mk false None tp_back ranges b = true /\
+  tp_inside_segs (tp_script_func off mk false true ranges b (b + 86400)) b = true /\
+  tp_script_func off mk false true ranges b (b + 86400) = [(b - 18000, b + 10800)].
+Proof. vm_compute. repeat split; reflexivity. Qed.
+
 (* F-C08-c: "2034-03-25 - 2034-03-31 / 2" across the spring-forward day 2034-03-26: by calendar days the
-   27th matches and the 28th does not; the produced segments (09:00-17:00) have it the other way round *)
+   27th matches and the 28th does not; the segments (09:00-17:00) the PINNED form produces have it the other way round *)
 Theorem tp_stride_refuted :
   let off := tp_tab_off tp_berlin_base tp_berlin_tab in
   let mk := tp_tab_mk tp_berlin_base tp_berlin_tab in
@@ -238,11 +306,32 @@ Theorem tp_stride_refuted :
   let noon27 := mk (tp_days_from_civil 2034 3 27 * 86400 + 43200) in
   let noon28 := mk (tp_days_from_civil 2034 3 28 * 86400 + 43200) in
   tp_spec_inside off mk false None tp_back ranges noon27 = true /\
-  tp_inside_segs (tp_script_func off mk ranges b (b + 259200)) noon27 = false /\
+  tp_inside_segs (tp_script_func off mk false false ranges b (b + 259200)) noon27 = false /\
   tp_spec_inside off mk false None tp_back ranges noon28 = false /\
-  tp_inside_segs (tp_script_func off mk ranges b (b + 259200)) noon28 = true /\
+  tp_inside_segs (tp_script_func off mk false false ranges b (b + 259200)) noon28 = true /\
   tp_spec_inside off mk true None tp_back ranges noon27 = false /\
   tp_spec_inside off mk true None tp_back ranges noon28 = true.
+Proof. vm_compute. repeat split; reflexivity. Qed.
+
+(* ... and the same witness with the day number rounded to the nearest day (form rnd = true): the 27th matches, the
+   28th does not, in spring and (2034-10-28 - 2034-11-03 / 2 across the fall-back day 2034-10-29) in autumn *)
+Theorem tp_stride_fixed :
+  let off := tp_tab_off tp_berlin_base tp_berlin_tab in
+  let mk := tp_tab_mk tp_berlin_base tp_berlin_tab in
+  let ranges := [({| tp_dr_first := TpDate 2034 3 25; tp_dr_last := Some (TpDate 2034 3 31); tp_dr_stride := 2 |}, [(32400, 61200)])] in
+  let b := mk (tp_days_from_civil 2034 3 26 * 86400 + 43200) in
+  let noon27 := mk (tp_days_from_civil 2034 3 27 * 86400 + 43200) in
+  let noon28 := mk (tp_days_from_civil 2034 3 28 * 86400 + 43200) in
+  let ranges' := [({| tp_dr_first := TpDate 2034 10 28; tp_dr_last := Some (TpDate 2034 11 3); tp_dr_stride := 2 |}, [(32400, 61200)])] in
+  let b' := mk (tp_days_from_civil 2034 10 29 * 86400 + 43200) in
+  let noon30 := mk (tp_days_from_civil 2034 10 30 * 86400 + 43200) in
+  let noon31 := mk (tp_days_from_civil 2034 10 31 * 86400 + 43200) in
+  tp_inside_segs (tp_script_func off mk true false ranges b (b + 259200)) noon27 = true /\
+  tp_inside_segs (tp_script_func off mk true false ranges b (b + 259200)) noon28 = false /\
+  tp_inside_segs (tp_script_func off mk true false ranges' b' (b' + 259200)) noon30 = true /\
+  tp_inside_segs (tp_script_func off mk true false ranges' b' (b' + 259200)) noon31 = false /\
+  tp_spec_inside off mk false None tp_back ranges' noon30 = true /\
+  tp_spec_inside off mk false None tp_back ranges' noon31 = false.
 Proof. vm_compute. repeat split; reflexivity. Qed.
 
 (* ---------------- the calendar oracle accepts the model (fixed offset) ---------------- *)
@@ -250,13 +339,13 @@ Proof. vm_compute. repeat split; reflexivity. Qed.
 (* for a zone without transitions (empty table, offset c) the oracle that is run over implementation
    traces returns None on what the model computes, provided no probe of the window is reached by a
    range of a day before the window's first local day (the recorded finding F-C08-b) *)
-Theorem tp_cal_step_ok_model_const c ranges prefer incs excs b e clear probes pre :
+Theorem tp_cal_step_ok_model_const c rnd lb ranges prefer incs excs b e clear probes pre :
   tp_ranges_bounded ranges ->
   let off := fun _ : Z => c in
   let mk := fun l : Z => l - c in
-  let post := tp_update_region true (tp_script_func off mk ranges) prefer incs excs b e clear pre in
+  let post := tp_update_region true (tp_script_func off mk rnd lb ranges) prefer incs excs b e clear pre in
   (forall t d, In t probes -> tp_upd_begin b clear pre <= t < e ->
-               d < tp_local_day off (tp_upd_begin b clear pre) -> tp_day_covers off mk false ranges d t = false) ->
+               d < tp_first_day off lb (tp_upd_begin b clear pre) -> tp_day_covers off mk false ranges d t = false) ->
   tp_cal_step_ok c [] ranges prefer incs excs b e clear probes pre post (map (tp_is_inside post) probes) = None.
 Proof.
   intros Hb off mk post Hno. unfold tp_cal_step_ok.
@@ -280,6 +369,6 @@ Proof.
   change (tp_tab_off c []) with off. change (tp_tab_mk c []) with mk.
   rewrite tp_update_region_spec_b by exact Hwin.
   rewrite tp_own_after_window by exact Ht. fold b'. subst off mk. cbv beta in *.
-  rewrite (tp_ranges_fixed_offset c ranges b' e t Ht Hb (fun d Hd => Hno t d (or_introl eq_refl) Ht Hd)).
+  rewrite (tp_ranges_fixed_offset c rnd lb ranges b' e t Ht Hb (fun d Hd => Hno t d (or_introl eq_refl) Ht Hd)).
   rewrite Bool.eqb_reflx. exact IH'.
 Qed.
